@@ -383,6 +383,11 @@ func cmdCheck(args []string) {
 	for a := range assumptions {
 		asm = append(asm, a)
 	}
+	for k := range g.trustedEffects {
+		if !assumptions["trusted contract: "+k] {
+			asm = append(asm, "trusted contract (declared write effects only, used by the effect analysis of callers): "+k)
+		}
+	}
 	sort.Strings(asm)
 	asm = append(asm, "T-engine: govc SSA->SMT semantics (DESIGN §2), go/ssa of x/tools v0.50.0, SMT solvers z3 5.1.0 / z3 4.8.12 / cvc5 1.0.3",
 		"A-arith: slice windows and map sizes <= 2^31 elements; other machine arithmetic is modelled exactly (wrap-around)",
